@@ -115,6 +115,9 @@ def flat_prog(
                     active = e
                 else:
                     args.append(e)
+        if "flag" in dep_kinds and active is None and i not in setup_idx and i not in debug_idx \
+                and draw(st.sampled_from([True] + [False] * 5)):
+            active = ["c", draw(st.sampled_from([False, False, True, 0, 1, None]))]  # a constant activation flag
         if n_params and i not in setup_idx and draw(st.integers(0, 2)) == 0:
             args.append(["p", f"p{draw(st.integers(0, n_params - 1))}"])
         if dup_rate and i > 0 and i not in setup_idx and i not in debug_idx and draw(st.floats(0, 1)) < dup_rate:
